@@ -108,10 +108,8 @@ class Ctx:
 
     # ---------------------------------------------------------------- Coq side
     def gen_params(self):
-        """Regenerate coq/Generated.v from the working tree.  When a pattern no longer matches (the
-        source changed shape) the obligation is broken; so that the SEARCH for a concrete failing input
-        can still run, the models are then built from the last known-good source (commit recorded in
-        /verif/GOOD_COMMIT, taken from the repository's history) and compared with the working tree."""
+        """Regenerate coq/Generated.v from the working tree (a pattern that no longer matches leaves its
+        definition out and is listed in self.gen_broken)."""
         gp = os.path.join(VERIF, 'tools', 'gen_params.py')
         out = os.path.join(COQ, 'Generated.v')
         rc, o, e = sh([sys.executable, gp, REPO, out], timeout=120)
@@ -119,19 +117,30 @@ class Ctx:
         self.gen_broken = [l for l in self.gen_status if l.startswith('FAIL')]
         if rc != 0:
             self.notes.append('gen_params: pattern failure: ' + '; '.join(self.gen_broken)[:800])
-            good = os.path.join(VERIF, 'GOOD_COMMIT')
-            if os.path.exists(good):
-                c = open(good).read().strip()
-                d = os.path.join(self.tmp, 'good_src')
-                os.makedirs(d, exist_ok=True)
-                p1 = subprocess.run('git -C %s archive %s src include | tar -x -C %s' % (REPO, c, d), shell=True,
-                                    stdout=subprocess.PIPE, stderr=subprocess.PIPE)
-                if p1.returncode == 0:
-                    rc2, o2, e2 = sh([sys.executable, gp, d, out], timeout=120)
-                    if rc2 == 0:
-                        self.gen_fallback = c
-                        self.notes.append('models built from the last known-good source %s to search for a failing input' % c[:10])
         return rc == 0
+
+    def gen_fallback(self):
+        """The models of this property can no longer be regenerated from the working tree.  So that the
+        SEARCH for a concrete failing input can still run, build them from the last known-good source
+        (commit recorded in /verif/GOOD_COMMIT, taken from the repository's own history)."""
+        gp = os.path.join(VERIF, 'tools', 'gen_params.py')
+        out = os.path.join(COQ, 'Generated.v')
+        good = os.path.join(VERIF, 'GOOD_COMMIT')
+        if not os.path.exists(good):
+            return False
+        c = open(good).read().strip()
+        d = os.path.join(self.tmp, 'good_src')
+        os.makedirs(d, exist_ok=True)
+        p1 = subprocess.run('git -C %s archive %s src include | tar -x -C %s' % (REPO, c, d), shell=True,
+                            stdout=subprocess.PIPE, stderr=subprocess.PIPE)
+        if p1.returncode != 0:
+            return False
+        rc2, o2, e2 = sh([sys.executable, gp, d, out], timeout=120)
+        if rc2 != 0:
+            return False
+        self.gen_fallback_commit = c
+        self.notes.append('models built from the last known-good source %s to search for a failing input' % c[:10])
+        return True
 
     def coq(self, propfile=None, timeout=3000):
         """Build the dependency cone of Properties_<pid>.v with make (full .vo), then
@@ -145,6 +154,14 @@ class Ctx:
             deps = coq_deps(propfile)
             cmd = ['make', '-C', COQ, '-j%d' % NCPU] + [d for d in deps]
             rc, o, e = sh(cmd, timeout=timeout) if deps else (0, '', '')
+            self.gen_dependent = False
+            if rc != 0 and self.gen_broken:
+                # the cone of this property needs a parameter that can no longer be read off the source
+                first = (o + e)[-1500:]
+                if self.gen_fallback():
+                    self.gen_dependent = True
+                    self.gen_first_error = first
+                    rc, o, e = sh(cmd, timeout=timeout)
             fcntl.flock(lk, fcntl.LOCK_UN)
         src = open(os.path.join(COQ, propfile)).read()
         thms = re.findall(r'^\s*Theorem\s+([A-Za-z0-9_\']+)', src, re.M)
@@ -187,7 +204,7 @@ class Ctx:
             return False
         self.cov['discharged'] = len(thms)
         self.proof_broken = None
-        if getattr(self, 'gen_broken', None):
+        if getattr(self, 'gen_dependent', False):
             # the theorems were re-checked against parameters of the last known-good source, not of the
             # working tree: the tie is broken even though the files compile
             used = [g.split()[1] for g in self.gen_broken if len(g.split()) > 1]
@@ -255,6 +272,17 @@ class Ctx:
                 for f in glob.glob(os.path.join(COQ, 'Extract_%s.vo' % group)):
                     os.remove(f)
             rc, o, e = sh(['make', '-C', COQ, '-j%d' % NCPU, 'Extract_%s.vo' % group], timeout=3000)
+            if rc != 0 and getattr(self, 'gen_broken', None) and not getattr(self, 'gen_dependent', False):
+                # the executable model needs a parameter that can no longer be read off the source: build it from
+                # the last known-good source so that the search for a failing input can run; the tie is broken
+                if self.gen_fallback():
+                    self.gen_dependent = True
+                    used = [g.split()[1] for g in self.gen_broken if len(g.split()) > 1]
+                    if not getattr(self, 'proof_broken', None):
+                        self.proof_broken = ('the executable model (Extract_%s.v) can no longer be regenerated from the working tree: '
+                                             'pattern(s) %s do not match the source any more' % (group, ', '.join(used)))
+                        self.cov['discharged'] = 0
+                    rc, o, e = sh(['make', '-C', COQ, '-j%d' % NCPU, 'Extract_%s.vo' % group], timeout=3000)
             if rc == 0:
                 # private copy taken under the lock (a concurrent check may re-extract)
                 d = os.path.join(self.tmp, 'drv_' + group)
